@@ -678,13 +678,16 @@ def parseGoto (r : Row) : M Unit :=
   if ds.length ≠ r.edges.length then fail (.critical "go_to: number of destinations")
   else (r.edges.zip ds).forM gotoEdge
 
+/-- the group a merging row's edge comes from -/
+def predGroup (e : Edge) : M (Option Nat) := if e.from_.isEmpty then mostRecent else lookupRow e.from_
+
 /-- a row naming an existing node adds its action to that node -/
 def mergeRow (r : Row) (ex : Nat) (act : Str) : M Unit :=
   match r.edges with
   | [e] =>
     if ¬ e.cond.blank then fail (.critical "merge: exactly one unconditional incoming edge")
     else do
-      let pred ← if e.from_.isEmpty then mostRecent else lookupRow e.from_
+      let pred ← predGroup e
       match pred with
       | none => fail (.exc "AttributeError: no predecessor group")
       | some pg => do
